@@ -233,6 +233,8 @@ def run(rep, tier):
             "assumption A-addr: slice addresses are below 2^63, so adding a 32-bit displacement cannot wrap"),
         Row("frame-pointer", I, r"^Overflow\((Sub|Add)\)\((?:array|tmp|mut)<\[u64; 11\]>\[10\],[^,]*Stack(UsageType|Frame|Usage)::", "A",
             "assumption A-addr: r10 is not writable by verified programs (C06) and stays within 8 * 65535 bytes of the stack top"),
+        Row("usage-present-assert", r"EbpfVmMbuff::execute_program$", r"^panic!debug_assert_eq@\[.*Option<T>::is_some\(&\*arg1<&EbpfVmMbuff<'_>>\.prog\).*Option<T>::is_some\(&\*arg1<&EbpfVmMbuff<'_>>\.stack_usage\).*\]$", "D3",
+            "the same invariant as the next row, stated as an assertion: the stack-usage table is Some exactly when the program is (paired writes, C10/R10.d)", cites=("C10/R10.d",)),
         Row("usage-present", I, r"^unwrap:Option<T>::unwrap\(arg2<Option<&stack::StackUsage>>\)$", "D3",
             "the stack-usage table is Some whenever the program is Some (paired writes, C10/R10.d)", cites=("C10/R10.d",)),
         Row("null-ubcheck", I, r"^NullPointerDereference\(\)$", "D4",
